@@ -221,6 +221,9 @@ def flow(ctx, R):
             acc_name = k
     if acc_name:
         st.env.vars[acc_name] = Opaque("ACCENTS", kind="obj")
+    itv = key(ev.expr(lp.iter, st))
+    okit = itv in ("TEXT", "enumerate(TEXT)", "unicodedata.normalize('NFC', TEXT)", "unicodedata.normalize('NFD', TEXT)")
+    R.check(okit, "C19.FLOW", U + "|scans the text itself", where(f, lp), "the loop consumes the text as given (or a canonically equivalent normal form)", "the loop scans %s instead of the text as given: characters are changed before conversion (only canonical normalisation NFC/NFD preserves the text up to canonical equivalence)" % itv)
     ch = Opaque("ch", kind="str")
     if isinstance(lp.target, ast.Name):
         st.env.vars[lp.target.id] = ch
